@@ -79,5 +79,13 @@ CHECKS += [
          technique="property-based testing of the real lost-state handler over fake servers with a decision-table oracle"),
 ]
 
+CHECKS += [
+    dict(property_id="C03", category="exploration",
+         text="Two layers. (a) Lock layer: a rapid state machine over 2-3 real zkDCS clients (distinct process identities, restarts as new incarnations) on the fake ZooKeeper in virtual time - acquire/release/re-check, severed connections, refused reconnects, one-way black holes, delays below a third of the session timeout, forced and timer expiry, server stop/start, request-level faults (cut before / reply lost / hang) - with an oracle over the server's mutation log: every true answer is backed by the lock znode being owned by a live session of that client at some instant of the call, and every delete of the lock znode comes from its owner. (b) Daemon layer: generated histories in the cluster simulation with every AcquireLock answer recorded by a decorator; per completed iteration cluster-wide actions (mutating SQL to other hosts, writes of the guarded keys) occur only after a true answer in that iteration, and a promoting iteration has >=3 true answers before its first irrevocable statement, positioned after the freeze and after the catch-up.",
+         design_ref="DESIGN.md section 4, C03",
+         note="Trusted: fake ZooKeeper session semantics; the ZooKeeper timing assumption (delays < T/3, sessions end by the server's timer; an administrative expiry is generated only without message delay); goroutine scheduling lag between a disconnect event and the cache being cleared is not modelled (virtual time).",
+         technique="stateful model-based property testing of the real lock client against server-side ownership history + trace oracle in the cluster simulation"),
+]
+
 _claimed = {c["property_id"] for c in CHECKS}
 NOT_APPLICABLE = [dict(property_id=p, reason="check not built yet in this revision (framework under construction; see DESIGN.md build order)") for p in ALL if p not in _claimed]
